@@ -5,6 +5,7 @@
 # selftest.sh transparency       - the repository's own suite on the instrumented copy (simulator inactive).
 # selftest.sh mutants [pattern]  - sensitivity: tools/run_mutants.sh
 cd "$(dirname "$0")"
+# (VERIF_REPO=<tree> runs the self tests against another tree, e.g. one that starts goroutines)
 case "${1:-}" in
  determinism)
   N="${2:-300}"; rc=0
